@@ -353,6 +353,77 @@ async fn control_flood(seed: u64, rep: Arc<Mutex<Report>>) {
     .await;
 }
 
+/// MuxBuffer.tla, exact: a raw peer sends the frame list of a scenario while the local application accepts nothing. Once the
+/// multiplexer stops pulling, what it pulled from the transport must not exceed what the specification pulls in its blocked state
+/// (permits are acquired BEFORE the bytes of a chunk are pulled): the payload held is within read_buffer_size / read_frame_count.
+async fn data_flood_exact(case: &serde_json::Value, rep: Arc<Mutex<Report>>) {
+    let clock = ctx::RealClock;
+    let root = ctx::test_root(&clock);
+    let ctx = &root.with_timeout(time::Duration::seconds(30));
+    let (frame, bufsz, count) = (case["fs"].as_u64().unwrap(), case["buf"].as_u64().unwrap(), case["cnt"].as_u64().unwrap());
+    let hs: Vec<u8> = {
+        let (ea, _eb, ab, _ba) = pipe::pair();
+        ab.lock().unwrap().auto = false;
+        let q = StreamQueue::new(ctx, 2, limiter::Rate::INF);
+        let m = Mux { cfg: mux_cfg(frame, bufsz, count), accept: BTreeMap::new(), connect: [(0, q)].into_iter().collect() };
+        let _ = m.run(&root.with_timeout(time::Duration::milliseconds(200)), ea).await;
+        let v = ab.lock().unwrap().staging.clone();
+        v
+    };
+    let qa = StreamQueue::new(ctx, 2, limiter::Rate::INF);
+    let mux_a = Mux { cfg: mux_cfg(frame, bufsz, count), connect: BTreeMap::new(), accept: [(0, qa.clone())].into_iter().collect() };
+    let (ea, eb, _ab, ba) = pipe::pair();
+    let _keep = eb;
+    let _: Result<(), ctx::Error> = scope::run!(ctx, |ctx, s| async {
+        s.spawn_bg(async {
+            let _ = mux_a.run(ctx, ea).await;
+            Ok(())
+        });
+        pipe::release(&ba, &hs);
+        let hdr = |kind: u16| (kind | 0b0010_0000_0000_0000).to_le_bytes(); // CONNECT side, stream 0
+        let mut bytes = vec![];
+        for f in case["frames"].as_array().unwrap() {
+            match f["k"].as_str().unwrap() {
+                "open" => bytes.extend(hdr(0)),
+                "close" => bytes.extend(hdr(0b1000_0000_0000_0000)),
+                _ => {
+                    let l = f["len"].as_u64().unwrap() as u16;
+                    bytes.extend(hdr(0b0100_0000_0000_0000));
+                    bytes.extend(l.to_le_bytes());
+                    bytes.extend(vec![0x5au8; l as usize]);
+                }
+            }
+        }
+        pipe::release(&ba, &bytes);
+        let (mut last, mut calm) = (0, 0);
+        for _ in 0..3000 {
+            let _ = ctx.sleep(time::Duration::milliseconds(2)).await;
+            let p = ba.lock().unwrap().pulled;
+            if p == last {
+                calm += 1;
+                if calm > 80 {
+                    break;
+                }
+            } else {
+                calm = 0;
+                last = p;
+            }
+        }
+        let pulled = ba.lock().unwrap().pulled.saturating_sub(hs.len() as u64);
+        let want = case["wire"].as_u64().unwrap();
+        let mut r = rep.lock().unwrap();
+        r.add("exact_flood_cases", 1);
+        if pulled > want {
+            r.fail("mux_buffer_bound_exact", format!("scenario {}: the multiplexer pulled {pulled} bytes after its handshake from a peer whose data nobody reads; with read_buffer_size = {bufsz}, read_frame_count = {count}, read_frame_size = {frame} the specification pulls {want} (payload held {} B in {} frames): more unconsumed data is held than the limits allow", case["name"], case["payload"], case["chunks"]), json!({"scenario": "data_flood_exact", "case": case}));
+        } else if pulled < want {
+            r.add("exact_flood_pulled_less_than_spec", 1);
+            r.notes.push(format!("exact flood {}: pulled {pulled} < specification {want}", case["name"]));
+        }
+        Ok(())
+    })
+    .await;
+}
+
 fn main() {
     quiet_panics();
     let a = args();
@@ -365,6 +436,11 @@ fn main() {
             cooperative(seed, log.clone(), rep.clone()).await;
             flood(seed, rep.clone()).await;
             control_flood(seed, rep.clone()).await;
+            if let Some(p) = a.get(3) {
+                for case in read_cases(p) {
+                    data_flood_exact(&case, rep.clone()).await;
+                }
+            }
         })
     });
     let mut rep = std::mem::take(&mut *rep.lock().unwrap());
